@@ -140,23 +140,26 @@ def r2_reflexive_first(ctx, which="typeorder"):
         body.pop(0)
     first = body[0] if body else None
     want = "Order.SAME" if which == "typeorder" else "True"
-    ok = (
-        isinstance(first, ast.If)
-        and isinstance(first.test, ast.Compare)
-        and len(first.test.ops) == 1
-        and isinstance(first.test.ops[0], (ast.Eq, ast.Is))
-        and {dotted(first.test.left), dotted(first.test.comparators[0])} == {p1, p2}
-        and len(first.body) == 1
-        and isinstance(first.body[0], ast.Return)
-        and src(first.body[0].value) == want
-    )
+    def cmp_of(t, kinds):
+        return isinstance(t, ast.Compare) and len(t.ops) == 1 and isinstance(t.ops[0], kinds) and {dotted(t.left), dotted(t.comparators[0])} == {p1, p2}
+
+    test = first.test if isinstance(first, ast.If) else None
+    arms = test.values if isinstance(test, ast.BoolOp) and isinstance(test.op, ast.Or) else [test]
+    by_value = any(cmp_of(t, ast.Eq) for t in arms) and all(cmp_of(t, (ast.Eq, ast.Is)) for t in arms)
+    only_identity = test is not None and all(cmp_of(t, ast.Is) for t in arms)
+    ok = isinstance(first, ast.If) and by_value and len(first.body) == 1 and isinstance(first.body[0], ast.Return) and src(first.body[0].value) == want
     ctx.ob(
         f"{f.key}:reflexive-first",
         f.loc(first) if first is not None else f.loc(),
         f"the first thing {f.name} does is answer {want} for equal operands",
         ok,
-        f"{f.name} no longer starts with the equality shortcut: a type compared with itself goes through hooks and issubclass and may come out as something other than {want}",
+        (f"{f.name} recognises only the identical object: structural types (unions, intersections, literals) that are equal but built separately go through hooks and issubclass and come out as something other than {want}" if only_identity else f"{f.name} no longer starts with the equality shortcut: a type compared with itself goes through hooks and issubclass and may come out as something other than {want}"),
     )
+
+
+def r2_reflexive_both(ctx):
+    r2_reflexive_first(ctx, which="typeorder")
+    r2_reflexive_first(ctx, which="subclasscheck")
 
 
 def _len_guarded(ctx, f, zcall, a, b):
@@ -443,7 +446,7 @@ RULES = [
     ("C12.R6", "P1", r6_dependent_pairs, "dependent vs dependent: ordered by bounds, mirrored"),
     ("C12.R5", "P1", r5_subclass_fallback, "plain classes are ordered by issubclass"),
     ("C12.R1", "P1", r1_swap_parity, "swap parity"),
-    ("C12.R2", "P1", r2_reflexive_first, "reflexive shortcut first"),
+    ("C12.R2", "P1", r2_reflexive_both, "reflexive shortcut first, by value, in the order and in the subclass test"),
     ("C12.R3", "P1", r3, "no zip of two types' parameters without a length guard"),
     ("C12.R4", "P1", r4_tables, "decision tables of the Order-valued code"),
     ("C12.R8", "P1", _more("dependent_lt_is_antisymmetric"), "parameter-wise strict order is antisymmetric (interpreted)"),
